@@ -24,6 +24,7 @@ type Run struct {
 	Active map[int]bool // wallets the wallet manager is expected to know (created/imported, not removed)
 	Issued map[int][]string
 	Lines  []string // the history as this replay executed it (format of internal/hist)
+	Attached map[int]bool // blocks the node has connected at some time
 	NodeDone []bool // node operations already performed (the node moved on while the wallet was down)
 	Stale  bool
 	nq     int
@@ -45,7 +46,7 @@ func NewRun(s *Script) (*Run, error) {
 		os.RemoveAll(dir)
 		return nil, err
 	}
-	r := &Run{S: s, Dir: dir, N: node, Active: map[int]bool{}, Issued: map[int][]string{}, NodeDone: make([]bool, len(s.Ops))}
+	r := &Run{S: s, Dir: dir, N: node, Active: map[int]bool{}, Issued: map[int][]string{}, Attached: map[int]bool{}, NodeDone: make([]bool, len(s.Ops))}
 	r.Lines = append(r.Lines, s.Header...)
 	return r, nil
 }
@@ -207,9 +208,7 @@ func (r *Run) Exec(i int) Outcome {
 				out.Err = fmt.Errorf("announcement of block %d not accepted", op.BlkID)
 			}
 			r.emit("P %d %s", op.BlkID, out.Val)
-			if *op.Blk.Hash() == *r.N.Tip().Hash() {
-				r.Stale = false
-			}
+			r.Stale = best.Hash != *r.N.Tip().Hash()
 		}
 	case OpQuery:
 		out.Done = r.guard(func() { r.Query() })
@@ -240,6 +239,7 @@ func (r *Run) nodeOp(i int) error {
 		if err := r.N.Attach(op.Blk); err != nil {
 			return err
 		}
+		r.Attached[op.BlkID] = true
 		r.emit("N attach %d", op.BlkID)
 		return nil
 	}
